@@ -294,6 +294,22 @@ def run_spec(S, oracle_classes, wall=20, keep=False):
                     sim.simulate_until_max_customers(op[1], method=op[2])
                 elif op[0] == "deadlock":
                     sim.simulate_until_deadlock()
+                elif op[0] == "spawn":
+                    # F9 mid-run: while this simulation is paused, the caller builds another Simulation from the same
+                    # Network object (and never runs it).  Nothing about the paused simulation may change.
+                    tr = type(R.B.tracker).__mro__[1]
+                    targs = ()
+                    t_ = S.get("tracker")
+                    if t_ and t_["k"] == "NodePopulationSubset":
+                        targs = (list(t_["obs"]),)
+                    elif t_ and t_["k"] == "GroupedNodePopulation":
+                        targs = ([list(g) for g in t_["groups"]],)
+                    kw2 = {k2: v2 for k2, v2 in R.B.simkw.items() if k2 not in ("tracker", "deadlock_detector")}
+                    before_draws = len(R.log.draws)
+                    ciw.Simulation(R.B.network, tracker=tr(*targs), **kw2)
+                    R.counts["F9:second_simulation_built_mid_run"] += 1
+                    R.seg += 1
+                    continue
                 else:
                     raise RuntimeError("unknown plan op %r" % (op,))
                 R.seg += 1
